@@ -1,17 +1,21 @@
-// Package vtime: time.Sleep shim. PROTOTYPE.
+// Package vtime: time.Sleep as a scheduling point with yield semantics (durations are not modelled:
+// a sleeper may resume at any later scheduling point once the others have had a chance to run).
 package vtime
 
 import (
 	"time"
 
-	"github.com/lmorg/murex/zz_verif/vsched"
+	"verif/shim/vsched"
 )
 
 func Sleep(d time.Duration) {
-	e, t := vsched.Self()
-	if e == nil {
+	if !vsched.Active() {
 		time.Sleep(d)
 		return
 	}
-	vsched.PointOp(e, t, vsched.Op{Kind: vsched.OpYield})
+	if vsched.ThreadID() < 0 {
+		time.Sleep(d)
+		return
+	}
+	vsched.Yield()
 }
